@@ -236,6 +236,12 @@ func (x *fnCtx) monitorClauses(owner *Addr, lockField string) []*Clause {
 	return ts.Monitors[lockField]
 }
 
+func (x *fnCtx) evalMonitorAt(st *State, fr *Frame, owner *Addr, cl *Clause, old *Heap) *Term {
+	self := &Val{T: types.NewPointer(owner.Root), L: []*Term{owner.Base}, A: &Addr{Kind: AObj, Base: owner.Base, Root: owner.Root, Elem: owner.Root}}
+	env := &specEnv{x: x, st: st, heap: st.heap, old: old, names: map[string]nameBind{"self": {v: self}}, fr: fr}
+	return x.evalSpecBool(env, cl.Expr)
+}
+
 func (x *fnCtx) evalMonitor(st *State, fr *Frame, owner *Addr, cl *Clause) *Term {
 	self := &Val{T: types.NewPointer(owner.Root), L: []*Term{owner.Base}, A: &Addr{Kind: AObj, Base: owner.Base, Root: owner.Root, Elem: owner.Root}}
 	env := &specEnv{x: x, st: st, heap: st.heap, old: fr.oldHeap, names: map[string]nameBind{"self": {v: self}}, fr: fr}
@@ -275,8 +281,13 @@ func (x *fnCtx) lockOp(st *State, fr *Frame, in ssa.Instruction, recv *Val, op s
 		st.locks = append(st.locks, id)
 		if owner != nil {
 			x.havocGuarded(st, owner, lockField)
+			// two-state monitor invariants compare against the state at acquisition
+			if st.lockSnap == nil {
+				st.lockSnap = map[*Term]*Heap{}
+			}
+			st.lockSnap[id] = st.heap.snapshot()
 			for _, cl := range x.monitorClauses(owner, lockField) {
-				st.assume(x.evalMonitor(st, fr, owner, cl))
+				st.assume(x.evalMonitorAt(st, fr, owner, cl, st.lockSnap[id]))
 			}
 		}
 	case "Unlock", "RUnlock":
@@ -288,7 +299,11 @@ func (x *fnCtx) lockOp(st *State, fr *Frame, in ssa.Instruction, recv *Val, op s
 		if owner != nil {
 			if mode == 2 {
 				for i, cl := range x.monitorClauses(owner, lockField) {
-					x.addVC(st, short, "monitor", ord, fmt.Sprintf("%d", i+1), x.evalMonitor(st, fr, owner, cl), "monitor invariant at Unlock: "+cl.Text, pos)
+					snap := st.lockSnap[id]
+					if snap == nil {
+						snap = st.heap
+					}
+					x.addVC(st, short, "monitor", ord, fmt.Sprintf("%d", i+1), x.evalMonitorAt(st, fr, owner, cl, snap), "monitor invariant at Unlock (old = state at Lock): "+cl.Text, pos)
 				}
 			}
 			x.setHeap(st, "$lock", Store(arr, id, IntLit(0)))
